@@ -1371,7 +1371,7 @@ class EvolveAppTask(BaseEvolutionTask):
             # We're adding this app for the first time. If there are models
             # here, then copy the entire signature from the target, and mark
             # all evolutions for the app as applied.
-            if new_models:
+            if new_models or list(target_app_sig.model_sigs):
                 app_sig = target_app_sig.clone()
                 project_sig.add_app_sig(app_sig)
                 orig_upgrade_method = app_sig.upgrade_method
